@@ -264,9 +264,13 @@ def compact(m):
 
 def compact_input(i):
     o = {k: v for k, v in i.get("o", {}).items() if v not in (0, "", [], False, None)}
-    d = {k: v for k, v in i.items() if k not in ("o", "join") and v not in (0, "", [], None)}
-    if "uri" in d:
-        d["uri"] = "".join(d["uri"])
+    d = {k: v for k, v in i.items() if k not in ("o", "join", "f") and v not in (0, "", [], None)}
+    for u in ("uri", "uri2"):
+        if u in d:
+            d[u] = "".join(d[u])
+    f = {k: v for k, v in (i.get("f") or {}).items() if v not in (0, "", [], False, None)}
+    if f:
+        d["f"] = f
     if o:
         d["o"] = o
     if i.get("op") == "join":
